@@ -375,6 +375,22 @@ func genWorld(r *simkit.RNG, sc *Scenario, k *gknobs) {
 		case 2: // near twin: one path differs
 			tw.Files = append(tw.Files, PFile{Path: "only-in-twin.txt", Kind: "file", Body: "T;", Mode: 0o644})
 		}
+		if lr := simkit.NewRNG(sc.Seed, "bw/twin-link"); k.hostileTrees && lr.Chance(1, 2) {
+			// the twin delivers one file as a link to a file outside the bundle that holds the
+			// same bytes: hashed through the link the two trees are equal, but the twin must be refused
+			src := &sc.Pkgs[a]
+			if !hasPath(src.Files, "shared.txt") {
+				// (both without the other hostile entries of this profile: the first must build)
+				var clean []PFile
+				for _, f := range src.Files {
+					if !strings.HasPrefix(f.Path, "h-") && !strings.HasPrefix(f.Path, "hd") && !strings.HasPrefix(f.Path, "ign") {
+						clean = append(clean, f)
+					}
+				}
+				src.Files = append(append([]PFile{}, clean...), PFile{Path: "shared.txt", Kind: "file", Body: "OUT-victim", Mode: 0o644})
+				tw.Files = append(append([]PFile{}, clean...), PFile{Path: "shared.txt", Kind: "link", Target: "/w/victim"})
+			}
+		}
 		if tr := simkit.NewRNG(sc.Seed, "bw/twin-spelling"); tr.Chance(1, 4) {
 			// a file name spelled composed in one package and decomposed in the other: two
 			// different paths (on a file system that keeps them apart, as this one does)
